@@ -410,4 +410,5 @@ static Val run_tls(const Val &c)
     return Val::List({Val::Int(0), Val::Int(log.handler), Val::Int(log.middleware), Val::Bool(got.contains("HTTP/")), Val::Int(live)});
 }
 
+QSslConfiguration hxTlsConfig(int kind) { return tlsConfig(kind); }
 void reg_tls() { registerFamily("tls", run_tls); }
